@@ -190,6 +190,35 @@ def check_props(prop_file):
     return theorems, {"closed_under_global_context": closed, "axioms": axioms}
 
 
+def coqchk(prop_file):
+    """Re-check Props/<prop_file>.vo and everything it depends on with Coq's independent checker; returns its context summary.
+    Thorough tier only (about a minute)."""
+    p = sh(["coqchk", "-silent", "-o", "-Q", "Model", "ASModel", "-Q", "Proofs", "ASProofs", "-Q", "Props", "ASProps", "-Q", "gen", "ASGen",
+            "ASProps." + prop_file], cwd=COQ, timeout=3000, check=False)
+    out = p.stdout
+    if p.returncode != 0 or "CONTEXT SUMMARY" not in out:
+        raise CheckError("coqchk rejects Props/%s.vo or one of its dependencies:\n%s" % (prop_file, out[-1500:]))
+    summ = out[out.index("CONTEXT SUMMARY"):]
+    fields = {}
+    key = None
+    for line in summ.splitlines():
+        if line.startswith("* ") and ":" in line:
+            key, val = line[2:].split(":", 1)
+            key = key.strip()
+            fields[key] = val.strip()
+        elif key and line.strip():
+            fields[key] = (fields[key] + " " + line.strip()).strip()
+    bad = [k for k, v in fields.items() if k != "Theory" and v not in ("<none>", "")]
+    if bad:
+        # axioms reported by coqchk must be on the allowlist too
+        ax = fields.get("Axioms", "")
+        names = [a for a in re.split(r"[\s,]+", ax) if a and a != "<none>"]
+        others = [k for k in bad if k != "Axioms"]
+        if others or any(a not in AXIOM_ALLOWLIST for a in names):
+            raise CheckError("coqchk context summary for Props/%s.vo is not clean: %s" % (prop_file, {k: fields[k] for k in bad}))
+    return fields
+
+
 # ---------------------------------------------------------- extraction -----
 
 def build_model_runner():
